@@ -307,7 +307,25 @@ def r10_4(ctx: Ctx):
         key = next((k.value for k in c.keywords if k.arg == "key"), None)
         rev = next((k.value for k in c.keywords if k.arg == "reverse"), None)
         ok = key is None and isinstance(rev, ast.Constant) and rev.value is True
-        obs.append(ctx.ob("R10.4", f, c, status=OK if ok else VIOLATION, detail="level candidates ordered best-first by the Individual order" if ok else f"LevelLimit orders the level's candidates with `{norm(c)[:70]}`: not best-first in the problem's direction (on maximisation problems the worst candidates are kept)"))
+        st_k = OK if ok else VIOLATION
+        if key is not None:
+            # a key is fine when it only picks the candidate out of a record (pair[i], a helper returning its element) and the
+            # individuals themselves are compared; a key that projects to the raw fitness bypasses the direction-aware order
+            kb = None
+            if isinstance(key, ast.Lambda) and len(key.args.args) == 1:
+                kb = key.body
+            elif isinstance(key, ast.Attribute) and isinstance(key.value, ast.Name):
+                hm = (f.cls.methods.get(key.attr) if f.cls is not None else None)
+                if hm is not None:
+                    hr = [r for r in body_walk(hm.node) if isinstance(r, ast.Return) and r.value is not None]
+                    kb = hr[0].value if len(hr) == 1 else None
+            elif isinstance(key, ast.Call) and norm(key.func) in ("itemgetter", "operator.itemgetter") and len(key.args) == 1:
+                kb = ast.Subscript(value=ast.Name(id="x", ctx=ast.Load()), slice=key.args[0], ctx=ast.Load())
+            reads_fit = kb is not None and any(isinstance(x, ast.Attribute) and x.attr in ("fitness", "fitnesses") for x in ast.walk(kb))
+            projection = kb is not None and isinstance(kb, ast.Subscript) and isinstance(kb.value, ast.Name) and isinstance(kb.slice, ast.Constant)
+            st_k = VIOLATION if reads_fit else (OK if projection and isinstance(rev, ast.Constant) and rev.value is True else INCONCLUSIVE)
+            ok = st_k == OK
+        obs.append(ctx.ob("R10.4", f, c, status=st_k, detail="level candidates ordered best-first by the Individual order" if ok else f"LevelLimit orders the level's candidates with `{norm(c)[:70]}`: not best-first in the problem's direction (on maximisation problems the worst candidates are kept)"))
     return obs
 
 
